@@ -77,7 +77,7 @@ func c09EmptyIndex(c *Ctx) {
 				return
 			}
 			// closures of sort.Search index with the search variable: bounded by the search itself
-			if fn.Parent() != nil {
+			if fn.Parent() != nil || ia.Parent().Parent() != nil {
 				return
 			}
 			n++
